@@ -127,6 +127,12 @@ InstallGroup(ms, thr) ==
     /\ out' = "ok"
     /\ UNCHANGED <<par, h, now, fee, current, tr, pendG, lastExpG, bm, canSign, sigc, sig, bsigc, bsig, bal, escrow, earned, owed>>
 
+(* environment: governance changes fee_per_signer (MsgUpdateParams); requests already paid keep the fee they recorded *)
+SetFee(f) ==
+    /\ f # fee
+    /\ fee' = f
+    /\ UNCHANGED <<par, h, now, current, tr, gcount, grp, pendG, lastExpG, bm, canSign, sigc, sig, bsigc, bsig, bal, escrow, earned, out, owed>>
+
 SetCanSign(g, b) ==
     /\ canSign' = [canSign EXCEPT ![g] = b]
     /\ UNCHANGED <<par, h, now, fee, current, tr, gcount, grp, pendG, lastExpG, bm, sigc, sig, bsigc, bsig, bal, escrow, earned, out, owed>>
@@ -294,6 +300,7 @@ Next ==
     \/ \E g \in Groups, good \in BOOLEAN : DkgDone(g, good)
     \/ \E g \in Groups, b \in BOOLEAN : SetCanSign(g, b)
     \/ \E ms \in MemberMenu : InstallGroup(ms, 1)
+    \/ \E f \in FeeSet : SetFee(f)
     \/ \E p \in Payer \cup {"authority"}, limit \in LimitSet, lx \in {0, 1}, incOK \in BOOLEAN :
           \E S \in ComOrNone(current), SI \in ComOrNone(Incoming) : Request(p, limit, lx, S, incOK, SI)
     \/ \E id \in Sigs : SignAll(id)
